@@ -77,3 +77,9 @@ def oracle(c):
     else:
         out.append(("malformed-impl-output", {"impl": impl}))
     return out
+
+
+def search(rng, corr_failures, run_cases):
+    import sys
+
+    return D.search_decode(sys.modules[__name__], rng, corr_failures, run_cases)
